@@ -85,6 +85,7 @@ func newVSrv(o vSrvOpts) *vSrv {
 		UsedRandom:  map[[32]byte]int64{},
 		Panel:       vPanel(o.Manager),
 	}
+	vState(sta)
 	if o.NoRedirP {
 		sta.RedirPort = ""
 	}
